@@ -161,6 +161,8 @@ def execute(plan):
         """the oracles (a)-(e) after one run; returns True if a violation was logged"""
         nested = sim.nested_violations[:]
         del sim.nested_violations[:]
+        if sim.cyclic:
+            raise Discard('cyclic-term')
         if end.startswith('exc:'):
             # engine's own exception: an outcome, not a verdict; but the world is unusable if it left bindings
             if not sim.restored(base) or nested:
@@ -196,6 +198,19 @@ def execute(plan):
         log.ev('R1', len(r1[0]), r1[1], ncalls, core.short_hash(r1[0]))
         log.count('r1_end_' + r1[1].split(':')[0])
         if check_after(['R1'], r1[0], r1[1], r1[2], None):
+            return log.result()
+        # R0: the same run with the per-query monitors switched off.  The monitors only *read* variables
+        # through the public get_value; an engine in which reading is not side-effect free (caches, path
+        # compression) could be "healed" - or broken - by them, so both runs must give the same answers.
+        sim.monitor = False
+        r0 = run_query(sim, yp, name, qargs, ctl, None, 'exhaust', None)
+        sim.monitor = True
+        log.ev('R0', len(r0[0]), r0[1], core.short_hash(r0[0]))
+        if check_after(['R0-unmonitored'], r0[0], r0[1], r0[2], None):
+            return log.result()
+        if (r0[0], r0[1]) != (r1[0], r1[1]):
+            log.violation('rerun-differs', {'fault': ['R0-unmonitored'], 'end': r0[1], 'expected_end': r1[1], 'answers': len(r0[0]), 'expected_answers': len(r1[0]),
+                                            'note': 'the run differs when nested queries are not observed in between: reading variables changes the answers'})
             return log.result()
         n = len(r1[0])
         if plan['faults'] == 'all':
@@ -255,7 +270,7 @@ def narrow(plan, viol):
         c = dict(plan)
         c['faults'] = [f]
         return c
-    if f and f[0] in ('R1', 'R_last'):
+    if f and f[0] in ('R1', 'R_last', 'R0-unmonitored'):
         c = dict(plan)
         c['faults'] = []
         return c
